@@ -17,7 +17,8 @@ num   : evaluate_k at k and k + G (|G_i| <= 2) for energies, band gradients, Ber
         spin, orbital moment (with external-term matrices) at non-degenerate k, also for a SystemSOC and on a 2x2x1 FFT grid
         (tabulators / integrators called on Data_K objects shifted by G); evaluate_k / formula traces / run() with
         parameters_K={'random_gauge': True} against False on models with exact two-fold and three-fold degeneracies and with a
-        near-degeneracy below the threshold (tolerance 1e-8 x scale), with evidence that the rotation was applied (unitary draws counted).
+        near-degeneracy below the threshold, and run(tetra=True) on a model degenerate only at grid points with the lowest Fermi level
+        inside the corner spread of the degenerate level (tolerance 1e-8 x scale), with evidence that the rotation was applied (unitary draws counted).
 """
 import copy
 import os
@@ -39,7 +40,9 @@ PROPS = {
                      "trace blocks under GaugeWithinTrace (degen_thresh_random_gauge <= degen_thresh), Fermi-sea block never cuts a multiplet. implementation-vs-implementation numerics: "
                      "evaluate_k(k) vs evaluate_k(k+G) (System_R, one SystemSOC), tabulators/integrators on a 2x2x1 FFT Data_K at dK and dK+G; random_gauge=True vs False for evaluate_k "
                      "tabulations, traces of the calculator formulas over degenerate multiplets (2-fold, 3-fold, and a pair split by 2^-40 < threshold), integrators with the Fermi level inside a "
-                     "multiplet, and run() integrals (incl. tetra=True) / tabulations, tolerance 1e-8 x scale, on dyadic random models; per-band comparisons only at k-points whose gaps exceed "
+                     "multiplet, run() integrals (incl. tetra=True) / tabulations, run(tetra=True) AHC / Ohmic_FermiSea / CumDOS on a 4x4x4 grid of a model whose levels are degenerate at the TRIMs only "
+                     "(lowest Fermi level between the corner maxima of the two partners at Gamma: the band blocks of the tetrahedron method, modelled in MC_GaugeBlocks TETRA / "
+                     "TracedBlocksAreUnionsOfMultiplets and replayed on TetraWeights.weights_all_band_groups), tolerance 1e-8 x scale, on dyadic random models; per-band comparisons only at k-points whose gaps exceed "
                      "0.05 (NonDegenerateK). That the random rotation really happened in evaluate_k / run() is established by counting the draws of scipy.stats.unitary_group (if the package "
                      "stops using it the count is reported as skipped). ShiftCurrentFormula (abelian generalised derivative: V_nn, A_nn) is gauge invariant only for multiplets without internal connection "
                      "(spin copies): on the other degenerate systems it depends on the random gauge, reported under the key random_gauge:formula:ShiftCurrentFormula (known finding). If evaluate_k raises with random_gauge=True that is a violation and the gauge part stops there. "
@@ -244,6 +247,7 @@ def _check(rep, tier):
         numeric_periodic(rep, rng, thorough, skipped)
         if usable:
             numeric_gauge(rep, rng, thorough, wd, skipped, state)
+            tetra_point_degeneracy(rep, rng, thorough, wd, skipped, state)
     finally:
         import shutil
         shutil.rmtree(wd, ignore_errors=True)
@@ -370,7 +374,7 @@ def gauge_usable(rep, skipped):
 
 def part_gauge_blocks(rep, rng, thorough, recs, skipped, usable):
     nb, emax = (6, 3) if thorough else (5, 3)
-    base = f"SPECIFICATION Spec\nCONSTANTS\n  NB = {nb}\n  EMAX = {emax}\n  THS = {{0, 1, 2}}\n  RequirePrecond = %s\n" + \
+    base = f"SPECIFICATION Spec\nCONSTANTS\n  NB = {nb}\n  EMAX = {emax}\n  THS = {{0, 1, 2}}\n  RequirePrecond = %s\n  TETRA = FALSE\n  Clip = TRUE\n" + \
         "".join(f"INVARIANT {i}\n" for i in ("Multiplets", "TraceBlocksContain", "SeaWhole", "MixSymmetric")) + "CHECK_DEADLOCK FALSE\n"
     st = ftable.enumerate_states("MC_GaugeBlocks.tla", base % "TRUE", "c04_gauge" + TAG, workers=4)
     ftable.spec_violation(rep, st, "c04_gauge")
@@ -443,6 +447,7 @@ def part_gauge_blocks(rep, rng, thorough, recs, skipped, usable):
             if r["mixed"] is not None:
                 recs.append(dict(fn="uu", E=E, th=th, mixed=r["mixed"][0]))
             rep.case(("degenrec", tuple(E), th))
+    tetra_blocks(rep, rng, thorough, recs, skipped)
     # the corrupted records of the binding self-test ride along
     corrupt = []
     b1 = copy.deepcopy([r for r in recs if r["fn"] == "hk" and r["G"] != [0, 0]][:1])
@@ -454,6 +459,8 @@ def part_gauge_blocks(rep, rng, thorough, recs, skipped, usable):
         b2[0]["out"] = b2[0]["out"][:-1]
         corrupt += b2
     corrupt.append(dict(fn="uu", E=[0, 2, 5], th=1, mixed=[[0, 2]]))
+    # the block the unclipped variant would trace: bands 0,1 degenerate at the centre, split in the corners, Fermi level between the corner maxima
+    corrupt.append(dict(fn="tetra", E=[0, 0, 4], lo=[0, 0, 4], hi=[0, 2, 4], th=1, thg=1, ef0=1, ef1=7, out=[[0, 2], [0, 1]]))
     if not recs:
         raise MachineryError(f"no record could be taken: {skipped}")
     stv, bad = ftable.validate_records("PeriodicityRec.tla", ftable.REC_CFG, recs + corrupt, "c04" + TAG)
@@ -462,7 +469,7 @@ def part_gauge_blocks(rep, rng, thorough, recs, skipped, usable):
     for i, clauses in sorted(bad.items()):
         if i < len(recs):
             r = recs[i]
-            fn = {"hk": "HH_K", "degen": "Data_K.degen", "uu": "Data_K.UU_K"}[r["fn"]]
+            fn = {"hk": "HH_K", "degen": "Data_K.degen", "uu": "Data_K.UU_K", "tetra": "TetraWeights.weights_all_band_groups"}[r["fn"]]
             rep.violation(f"{fn}:recorded:{clauses[0]}", dict(record=r, failing_clauses=clauses, unit=UNIT))
     smp = [r for r in recs if r["fn"] == "degen" and r["out"]]
     if smp:
@@ -471,6 +478,79 @@ def part_gauge_blocks(rep, rng, thorough, recs, skipped, usable):
         raise MachineryError(f"binding self-test failed: corrupted records accepted ({ {k: v for k, v in bad.items() if k >= len(recs)} })")
     rep.part("binding_selftest", corrupted_records_rejected={str(k - len(recs)): v for k, v in bad.items() if k >= len(recs)})
     return state
+
+
+def real_traced(E2, lo2, hi2, th2, ef0, ef1):
+    """keys of TetraWeights.weights_all_band_groups(eFermi, der=0) for one k-point whose centre energies are E2 and whose
+    corner minima / maxima are lo2 / hi2 (half units x UNIT/2) -> sorted list of [begin, end]"""
+    from wannierberri.grid.tetrahedron import TetraWeights
+    h = UNIT / 2.0
+    nb = len(E2)
+    ec = np.array([E2], dtype=float) * h
+    corners = np.array([[E2, E2, lo2, hi2]], dtype=float) * h          # (nk, 4 corners, nb): extrema lo2 / hi2
+    assert corners.shape == (1, 4, nb)
+    tw = TetraWeights(ec, corners)
+    res = tw.weights_all_band_groups(np.array([ef0 * h, ef1 * h]), der=0, degen_thresh=th2 * h)
+    return sorted([int(a), int(b)] for a, b in res[0].keys())
+
+
+def tetra_blocks(rep, rng, thorough, recs, skipped):
+    """band blocks a tetrahedron calculator traces vs the blocks the random gauge may rotate: TLC model, replay on the real
+    TetraWeights, records"""
+    nb = 4 if thorough else 3
+    tb = (f"SPECIFICATION Spec\nCONSTANTS\n  NB = {nb}\n  EMAX = 2\n  THS = {{0, 1}}\n  RequirePrecond = TRUE\n  TETRA = TRUE\n  Clip = %s\n"
+          "INVARIANT TracedBlocksAreUnionsOfMultiplets\nINVARIANT Multiplets\nCHECK_DEADLOCK FALSE\n")
+    st = ftable.enumerate_states("MC_GaugeBlocks.tla", tb % "TRUE", "c04_tetra" + TAG, workers=4)
+    ftable.spec_violation(rep, st, "c04_tetra")
+    rep.add_tlc("c04_tetra", st)
+    s0 = tlc.run_tlc("MC_GaugeBlocks.tla", (tb % "FALSE").replace(f"NB = {nb}", "NB = 2"), "c04_tetra_noclip" + TAG, workers=2, timeout=900)
+    if not s0.get("violation") or s0["violation"][1] != "TracedBlocksAreUnionsOfMultiplets":
+        raise MachineryError(f"sensitivity self-test failed: without the clip of the occupied block a multiplet must be cut ({s0.get('violation')}, {s0.get('error')})")
+    rep.part("c04_tetra_noclip", sensitivity_violation=s0["violation"][1])
+    states = sorted(ftable.dump_states(st), key=lambda s: (repr(s["E"]), s["thg"], s["thc"], repr(s["tet"])))
+    nsel = 1500 if thorough else 400
+    sel = states if len(states) <= nsel else rng.sample(states, nsel)
+    ncut = nrep = 0
+    for s in sel:
+        t = s["tet"]
+        E2 = [2 * e for e in s["E"]]
+        exp = sorted([int(a), int(b)] for a, b in t["traced"])
+        info = dict(centre=E2, corner_min=list(t["lo"]), corner_max=list(t["hi"]), degen_thresh=2 * s["thc"] + 1, eFermi=[t["ef0"], t["ef1"]], unit="1/16")
+        # does the input have a multiplet whose partners have different corner maxima around ef0 (the class the clip is for)?
+        ncut += any(b - a > 1 and min(t["hi"][a:b]) < t["ef0"] <= max(t["hi"][a:b]) for a, b in s["rg"])
+        try:
+            got = real_traced(E2, list(t["lo"]), list(t["hi"]), 2 * s["thc"] + 1, t["ef0"], t["ef1"])
+        except Exception as ex:  # noqa
+            report_raise(rep, skipped, ex, "TetraWeights", info)
+            if lib_raised(ex) is None:
+                break
+            continue
+        nrep += 1
+        rep.case(("tetra", tuple(E2), tuple(t["lo"]), tuple(t["hi"]), s["thc"], t["ef0"], t["ef1"]))
+        if got != exp:
+            rep.violation("TetraWeights.weights_all_band_groups:traced_blocks", dict(info, expected=exp, got=got, multiplets_of_the_random_gauge=[list(g) for g in s["rg"]]))
+    if nrep and ncut == 0:
+        raise MachineryError("vacuous: no tetrahedron input with a multiplet split in the corners around the lowest Fermi level")
+    rep.part("replay_tetra", states_enumerated=len(states), replayed=nrep, with_multiplet_split_in_corners=ncut)
+    # code -> spec
+    if nrep:
+        for _ in range(300 if thorough else 80):
+            n = rng.randint(1, 7)
+            E = sorted(rng.choice([0, 0, 1, 2, 3, 5]) + rng.randint(0, 2) for _ in range(n))
+            E2 = [2 * e for e in E]
+            hi = [e + 2 * rng.choice([0, 0, 1, 2]) for e in E2]
+            lo = [e - 2 * rng.choice([0, 0, 1]) for e in E2]
+            thg = rng.choice([0, 1])
+            th = thg + rng.choice([0, 0, 1])
+            ef0 = 2 * rng.randint(0, max(E) + 2) - 1
+            ef1 = ef0 + 2 * rng.choice([0, 1, 3, 20])
+            try:
+                out = real_traced(E2, lo, hi, 2 * th + 1, ef0, ef1)
+            except Exception as ex:  # noqa
+                report_raise(rep, skipped, ex, "TetraWeights", dict(centre=E2, corner_min=lo, corner_max=hi))
+                break
+            recs.append(dict(fn="tetra", E=E2, lo=lo, hi=hi, th=2 * th + 1, thg=2 * thg + 1, ef0=ef0, ef1=ef1, out=out))
+            rep.case(("tetrarec", tuple(E2), tuple(lo), tuple(hi), th, ef0, ef1))
 
 
 # ------------------------------------------------------------------------------------------------ numeric parts
@@ -672,6 +752,92 @@ def spin_copies_system(rng, nw=3, dim=2):
     SS = 0.5 * (SS + s.rvec.conj_XX_R(SS))          # keep it Hermitian on the R-set of the system
     s.set_R_mat("SS", SS, reset=True)
     return m, s, [(2 * j, 2 * j + 2) for j in range(nw)]
+
+
+def point_degenerate_system(rng, nw0=2):
+    """H(k) = H0(k) (x) 1_2 + sum_a sin(2 pi k_a) M_a (dyadic entries): every level is exactly two-fold degenerate at the eight
+    time-reversal invariant momenta (which belong to a 4x4x4 grid) and split everywhere else, in particular in the corners of the
+    k-cells around them.  Random Hermitian external-term matrices.  -> (system, Hk function)"""
+    from . import kmodels as km
+    m = km.build(rng.randrange(1 << 30), nw=nw0, dim=3, keys=("Ham",))
+    big = km.build(rng.randrange(1 << 30), nw=2 * nw0, dim=3, keys=("Ham", "AA", "BB", "CC", "FF", "SS"), centres="zero")
+    s = big.system()
+    n = 2 * nw0
+    H = np.zeros((s.rvec.nRvec, n, n), dtype=complex)
+    for R, M in m.mats["Ham"].items():
+        try:
+            iR = s.rvec.iR(R)
+        except Exception as ex:  # noqa
+            raise MachineryError(f"R-vector {R} of the small model is missing in the big one: {ex}")
+        H[iR] = np.kron(np.asarray(M), np.eye(2))
+    for a in range(3):
+        X = np.array([[complex(rng.randint(-6, 6), rng.randint(-6, 6)) / 16.0 for _ in range(n)] for _ in range(n)])
+        Ma = (X + X.conj().T) / 2
+        R = [0, 0, 0]
+        R[a] = 1
+        H[s.rvec.iR(tuple(R))] += Ma / 2j
+        R[a] = -1
+        H[s.rvec.iR(tuple(R))] += -Ma / 2j
+    s.set_R_mat("Ham", H, reset=True)
+    iRvec = np.array(s.rvec.iRvec)
+
+    def Hk(k):
+        return np.einsum("r,rab->ab", np.exp(2j * np.pi * iRvec.dot(np.asarray(k, dtype=float))), H)
+    return s, Hk, dict(seed_H0=m.meta["seed"], note="H0 (x) 1_2 + sum_a sin(2 pi k_a) M_a")
+
+
+def tetra_point_degeneracy(rep, rng, thorough, wd, skipped, state):
+    """run(tetra=True) on a model whose bands are degenerate only at grid points (TRIMs), with the lowest Fermi level between
+    the corner maxima of the two partners of the lowest level: Fermi-sea integrals with random_gauge True / False"""
+    import wannierberri as wb
+    from wannierberri import calculators as calc
+    worst = 0.0
+    ndone = 0
+    for _ in range(30):
+        if ndone >= (2 if thorough else 1):
+            break
+        s, Hk, meta = point_degenerate_system(rng)
+        e0 = np.linalg.eigvalsh(Hk([0, 0, 0]))
+        ec = np.array([np.linalg.eigvalsh(Hk([sx / 8, sy / 8, sz / 8])) for sx in (-1, 1) for sy in (-1, 1) for sz in (-1, 1)])
+        emax0, emax1 = max(e0[0], ec[:, 0].max()), max(e0[1], ec[:, 1].max())
+        if abs(e0[0] - e0[1]) > 1e-10 or emax1 - emax0 < 0.05 or e0[2] - emax1 < 0.3 or np.min(ec[:, 1] - ec[:, 0]) < 1e-2:
+            continue
+        ndone += 1
+        # lowest level above the whole band 0 of the cell around Gamma, inside band 1 of that cell
+        Ef = np.array([0.5 * (emax0 + emax1), emax1 + 0.1, 0.5 * (emax1 + e0[2])])
+        info = dict(meta, Efermi=Ef.tolist(), grid="NK=4x4x4, NKFFT=2x2x2", degenerate_at="the 8 TRIMs only",
+                    corner_maxima_of_the_partners_at_Gamma=[float(emax0), float(emax1)])
+
+        def icalcs():
+            kw = dict(Efermi=Ef, tetra=True, save_mode="")
+            return {"ahc": calc.static.AHC(**kw), "ahc_internal": calc.static.AHC(kwargs_formula={"external_terms": False}, **kw),
+                    "ohmic": calc.static.Ohmic_FermiSea(**kw), "cumdos": calc.static.CumDOS(**kw)}
+        out = []
+        try:
+            for rg in (False, True):
+                np.random.seed(rng.randrange(1 << 30))
+                with quiet(), Draws() as dr:
+                    grid = wb.Grid(s, NK=[4, 4, 4], NKFFT=[2, 2, 2])
+                    out.append(wb.run(s, grid, icalcs(), parallel=False, adpt_num_iter=0, use_irred_kpt=False, symmetrize=False, fout_name=f"{wd}/run_tetra",
+                                      parameters_K={"random_gauge": rg}, print_progress_step_time=1e9))
+        except Exception as ex:  # noqa
+            report_raise(rep, skipped, ex, "random_gauge:run:tetra", info)
+            continue
+        if state["scipy_draws_seen"] and dr.n < 16:
+            rep.violation("random_gauge:not_applied:run", dict(info, unitary_draws=dr.n, expected_at_least=16,
+                                                              note="two degenerate pairs at each of the 8 TRIMs of the grid were not all rotated"))
+        for key in ("ahc", "ahc_internal", "ohmic", "cumdos"):
+            a, b = np.asarray(out[0].results[key].data), np.asarray(out[1].results[key].data)
+            scale = max(1.0, float(np.abs(a).max()))
+            dev = float(np.abs(a - b).max())
+            worst = max(worst, dev / scale)
+            rep.case(("gauge_run_tetra_point_degeneracy", key, meta["seed_H0"]), nontrivial=np.abs(a).max() > 1e-9)
+            if dev > TOL * scale:
+                rep.violation(f"random_gauge:run:tetra:{key}", dict(info, fixed_gauge=a.tolist(), random_gauge=b.tolist(), deviation=dev, scale=scale,
+                                                                   note="Fermi-sea integral with the tetrahedron method, lowest Fermi level inside the corner spread of a level that is degenerate at the grid point"))
+    if ndone == 0:
+        raise MachineryError("no model with a suitable point degeneracy found")
+    rep.part("numeric_only", tetra_point_degeneracy_runs=ndone, tetra_point_degeneracy_max_rel_dev=worst)
 
 
 def multiplet_groups(nb, blocks):
